@@ -47,6 +47,7 @@ BINARIES = {
     "sim_bb256": _sim("BoundedBlocking", 256, 256),
     "sim_bb1k": _sim("BoundedBlocking", 1024, 1024),
     "sim_bb4k": _sim("BoundedBlocking", 4096, 4096),
+    "sim_bb1500": _sim("BoundedBlocking", 1500, 1500),  # configured capacity not a power of two: the queue holds 2048 bytes
     "sim_ub": _sim("UnboundedBlocking", 128, 4096),
     "sim_ubs": _sim("UnboundedBlocking", 64, 512),
     "sim_bd256": _sim("BoundedDropping", 256, 256),
@@ -76,6 +77,7 @@ BINARIES = {
     "tscorder": {"sources": ["harness/tsc_order.cpp", "engine/rc_driver.cpp"], "flavour": "plain", "libs": RC_LIBS,
                  "harness": "tscorder"},
     "csvw": {"sources": ["harness/csvw.cpp", "engine/rc_driver.cpp"], "flavour": "asan", "libs": RC_LIBS, "harness": "csvw"},
+    "fileflush": {"sources": ["harness/fileflush.cpp", "engine/rc_driver.cpp"], "flavour": "asan", "libs": RC_LIBS, "harness": "fileflush"},
 }
 
 # known-finding class -> binary that implements its probe
@@ -121,6 +123,7 @@ ENGINES = {
     "rot": {"path": "harness/rotating.cpp", "serves": ["C14", "C15"], "kind": "RotatingFileSink driver with file-system reference model and two-tier schedule oracle"},
     "alloc": {"path": "harness/alloc_catalog.cpp", "serves": ["C11"], "kind": "allocation-interposed statement catalog (-O2, no sanitizers)"},
     "csvw": {"path": "harness/csvw.cpp", "serves": ["C17"], "kind": "quill::CsvWriter on the real backend thread: generated histories of construction (five overloads), rows, flush, destruction with rows queued, re-creation, shared sinks; file / recording-sink reference model"},
+    "fileflush": {"path": "harness/fileflush.cpp", "serves": ["C06"], "kind": "file-backed sinks (FileSink, JsonFileSink, RotatingFileSink, a user StreamSink) on the real backend thread: generated write buffers, fsync options, before_write hooks that transform or suppress statements, sink_min_flush_interval; the files are read at the instant flush_log() returns"},
     "crashkid": {"path": "harness/crashkid.cpp", "serves": ["C07"], "kind": "fork/exec fault injection: generated child programs, all boundaries x termination kinds"},
     "tsfmt": {"path": "harness/tsfmt.cpp", "serves": ["C13"], "kind": "TimestampFormatter vs libc strftime"},
     "tscorder": {"path": "harness/tsc_order.cpp", "serves": ["C05", "C06"], "kind": "TSC-clock (default clock source) ordering harness: harness thread = backend, real worker threads logging one operation at a time, real time relative to the grace period; measured precondition"},
@@ -203,7 +206,7 @@ PROPERTIES = {
                        "also inside backend passes), on blocking and dropping flavours; at the instant flush_log() returns every "
                        "earlier statement of the caller (and, with ordering enabled, of any thread whose call had completed) must be "
                        "on all its sinks with a flush_sink after it; a flush still blocked with an idle backend is a violation."),
-        "level_note": SIM_NOTE + " Recording sinks (flush observed as flush_sink call); the real FileSink read-back is covered by C07's children." + TSC_NOTE,
+        "level_note": SIM_NOTE + " The sim jobs use recording sinks (flush observed as a flush_sink call); the read-back from the real file-backed sinks (FileSink, JsonFileSink, RotatingFileSink, a user StreamSink; write buffers, fsync, before_write hooks) is the fileflush job on the real backend thread." + TSC_NOTE,
         "rule": SIM_CASE + ("non-trivial = >= 2 threads logged AND a flush was issued while statements of OTHER threads whose calls had "
                             "completed were required to be written by it"),
         "assumptions": ["flush_log is never called from the backend thread (documented)"],
@@ -211,7 +214,11 @@ PROPERTIES = {
                  # flush_log() on the default (TSC) clock source, which sim cannot virtualise
                  {"bin": "tscorder", "params": {"prop": "C06"}, "realthread": True,
                   "quick": {"cases": 60, "procs": 4, "maxlen": 200},
-                  "thorough": {"cases": 1500, "procs": 8, "maxlen": 200}}],
+                  "thorough": {"cases": 1500, "procs": 8, "maxlen": 200}},
+                 # the destination clause on the real file-backed sinks: the files are read the moment flush_log() returns
+                 {"bin": "fileflush", "params": {}, "realthread": True,
+                  "quick": {"cases": 500, "procs": 3, "maxlen": 300},
+                  "thorough": {"cases": 12000, "procs": 8, "maxlen": 600, "params": {"maxops": "60"}}}],
     },
     "C08": {
         "technique": "stateful property-based testing on dropping queue flavours: return value <=> delivery, reported drops == false returns, control requests never dropped",
@@ -234,7 +241,7 @@ PROPERTIES = {
         "rule": SIM_CASE + ("plus DrainIdle+Log ops; non-trivial = a worker was refused at least once (blocked) or a statement was "
                             "dropped; wmm job: as C01/C02 plus a quiescent request of size <= capacity"),
         "assumptions": ["non-power-of-two unbounded maximum is known finding F12 (excluded in the wmm job)"],
-        "jobs": _simjobs("C09", ["sim_bb1k", "sim_bb4k", "sim_ub", "sim_ubs", "sim_bd1k", "sim_bd256"], quick_cases=500) + [
+        "jobs": _simjobs("C09", ["sim_bb1k", "sim_bb4k", "sim_bb1500", "sim_ub", "sim_ubs", "sim_bd1k", "sim_bd256"], quick_cases=500) + [
             {"bin": "wmm", "params": {"prop": "C09"},
              "quick": {"cases": 1000, "procs": 3, "maxlen": 700},
              "thorough": {"cases": 15000, "procs": 8, "maxlen": 1400}}],
@@ -323,7 +330,7 @@ PROPERTIES = {
             # thorough only: batches of 511-513 threads, and (second job) one batch of 65535-65537 short-lived threads per case
             {"bin": "sim_ubs", "params": {"prop": "C20", "big_batches": "1"}, "only_tier": "thorough",
              "thorough": {"cases": 1500, "procs": 4, "maxlen": 1200}},
-            {"bin": "sim_ubs", "params": {"prop": "C20", "huge_batches": "1"}, "only_tier": "thorough",
+            {"bin": "sim_ubs", "params": {"prop": "C20", "huge_batches": "1", "watchdog_ms": "240000"}, "only_tier": "thorough",
              "thorough": {"cases": 24, "procs": 4, "maxlen": 300}}],
     },
     "C01": {
